@@ -60,8 +60,8 @@ func (reg *Reg) ReferrerList(ctx context.Context, rSubject ref.Ref, opts ...sche
 			// attempt to call the referrer API
 			rl, err = reg.referrerListByAPI(ctx, r, config)
 			var urlErr *url.Error
-			if err != nil && (errors.As(err, &urlErr) || errors.Is(err, errs.ErrRetryNeeded)) {
-				// the request itself failed (connection, timeout, overloaded registry), that says nothing about the API: do not answer from the fallback tag
+			if err != nil && (errors.As(err, &urlErr) || errors.Is(err, errs.ErrRetryNeeded) || errors.Is(err, context.Canceled) || errors.Is(err, context.DeadlineExceeded) || errors.Is(err, errs.ErrCanceled)) {
+				// the request itself failed (connection, timeout, overloaded registry, canceled context), that says nothing about the API: do not answer from the fallback tag
 				rl.Subject = rSubject
 				return rl, err
 			}
